@@ -8,7 +8,8 @@ PROP = "C16"
 AREAS = ["fasta"]
 THEOREMS = ["parser_exact", "parser_complete", "pushed_complete", "no_record_lost", "first_line_is_a_header_refuted",
             "code_range", "extraction_normal_form", "odd_bytes_read_back_as_N", "dropped_bytes_vanish",
-            "final_newline_irrelevant", "duplicate_rejected", "collect_per_sample", "collect_fails_only_on_duplicate"]
+            "final_newline_irrelevant", "duplicate_rejected", "collect_per_sample", "collect_fails_only_on_duplicate",
+            "create_view_complete"]
 RULE = ("cases: parse <text> (GenomeIO::read_contig_converted loop over a Cursor), wr <id> <letters> (GenomeWriter 80-column "
         "wrapping), cli <k,s,m,t> name=file ... (real ragc create; if exit 0: listset, listctg + getset of every listed "
         "sample; 1 file = single-file PanSN mode, several = one sample per file). parse: exhaustive over all texts of "
@@ -307,6 +308,12 @@ def params(rng):
 def gen_cli_cases(rng, n):
     cs = []
     ref_plain = wrap_text(b"ref1", bytes(rng.choice(b"ACGT") for _ in range(400))) + b">ref2\nACGTNNRY\n"
+    # outside the property's alphabet, run for agreement: the kept non-letters inside LZ-coded segments
+    # ([ \\ ] ^ _ { | } ~ DEL -> code 30 -> N; the backquote -> code 32)
+    for odd in (b"[\\]^_{|}~\x7f", b"`"):
+        base = bytes(rng.choice(b"ACGT") for _ in range(300))
+        cs.append(f"cli {params(rng)} " + ftok(b"r.fa", wrap_text(b"c1", base)) + " "
+                  + ftok(b"s.fa", wrap_text(b"c1", mutate(rng, base, 0.03, odd) + odd[:1])))
     for i in range(n):
         kind = i % 6
         p = params(rng)
@@ -380,7 +387,7 @@ def gen_cases(rng, tier):
         cs.append("parse " + hx(gen_malformed(rng)))
     for n in [0, 1, 79, 80, 81, 159, 160, 161, 240] + [rng.randint(0, 700) for _ in range(20 if quick else 400)]:
         cs.append("wr " + hx(rand_printable(rng, rng.randint(1, 12)).strip() or b"x") + " " + hx(bytes(rng.choice(IUPAC) for _ in range(n))))
-    cli = gen_cli_cases(rng, 30 if quick else 900)
+    cli = gen_cli_cases(rng, 36 if quick else 900)
     _EXTRA["cli_cases"] = len(cli)
     return cs + cli
 
@@ -456,9 +463,18 @@ def search(ctx, budget):
 
 def finding_class(case, impl, why):
     t = case.split()
-    if t[0] == "cli" and has_duplicate(parse_files(t[2:])):
-        return "duplicate-contig-name"
+    if t[0] == "cli":
+        files = parse_files(t[2:])
+        if has_duplicate(files):
+            return "duplicate-contig-name"
+        if any(96 in s for _, x in files for _, s in py_records(x)) and not impl.startswith("OK"):
+            return "backquote-code32"
     return None
+
+
+def explained_by_known(b, known_seen):
+    # the model assumes C01/C09 (what is pushed comes back); a listed finding of that kind explains a cli mismatch
+    return b[0] == "correspondence" and bool(known_seen)
 
 
 def extra_coverage(ctx):
